@@ -1,5 +1,6 @@
 //! Ledger world: a single simulated node with many clients (DESIGN section 3.1).
 
+pub mod c07;
 pub mod determinism;
 pub mod fees;
 pub mod monitors;
